@@ -88,6 +88,31 @@ func (e *SpecEnv) resolveType(s string) (types.Type, error) {
 	if s == "int" {
 		return types.Typ[types.Int], nil
 	}
+	s = strings.TrimSpace(s)
+	if strings.HasPrefix(s, "*") {
+		t, err := e.resolveType(s[1:])
+		if err != nil {
+			return nil, err
+		}
+		return types.NewPointer(t), nil
+	}
+	if strings.HasPrefix(s, "[]") {
+		t, err := e.resolveType(s[2:])
+		if err != nil {
+			return nil, err
+		}
+		return types.NewSlice(t), nil
+	}
+	if i := strings.Index(s, "."); i > 0 && !strings.ContainsAny(s, "[]( ") {
+		// qualified name: imports are file-scoped in Go, so resolve the package by its name among the imports
+		for _, imp := range e.pkg.Imports() {
+			if imp.Name() == s[:i] {
+				if tn, ok := imp.Scope().Lookup(s[i+1:]).(*types.TypeName); ok {
+					return tn.Type(), nil
+				}
+			}
+		}
+	}
 	tv, err := types.Eval(token.NewFileSet(), e.pkg, token.NoPos, s)
 	if err != nil {
 		// try universe-qualified spelling through imports
